@@ -624,7 +624,9 @@ def rule_pseudoavg(ctx):
   vis = info["visits"][0]
   probs = []
   it = as_poly(vis["iter"]).as_atom() if not isinstance(vis["iter"], Seq) and vis["iter"] is not None else None
-  if not (it is not None and it.kind == "range" and len(it.args) == 1 and ratfun_eq(as_poly(it.args[0]), m)):
+  whole = it is not None and ((it.kind == "range" and len(it.args) == 1 and ratfun_eq(as_poly(it.args[0]), m)) or Poly.atom(it) == srt or
+                             (it.kind == "enumerate" and len(it.args) == 1 and as_poly(it.args[0]) == srt))
+  if not whole:
     probs.append("the scan does not run over all len(a) prefixes")
   k = as_poly(vis["k"])
   j = k + 1
